@@ -224,9 +224,9 @@ theorem fingerOrder_isTaskUpToDate_ok : FingerOrder.isTaskUpToDate = [("def ‹0
   ("return false, nil", "!(‹1› && ‹2›) && !(‹1›) && !(‹2›)")] := by rfl
 
 theorem fingerOrder_globs_ok : FingerOrder.globs = [("def ‹0› := make(map[string]bool)", ""),
-  ("glob", "range globs"),
-  ("def ‹1›, ‹2› := glob(dir, ‹3›.Glob)", "range globs"),
-  ("assign ‹0›[‹4›] = !‹3›.Negate", "range globs && range ‹1›"),
+  ("glob", "range globs && !(‹1› == nil)"),
+  ("def ‹2›, ‹3› := glob(dir, ‹1›.Glob)", "range globs && !(‹1› == nil)"),
+  ("assign ‹0›[‹4›] = !‹1›.Negate", "range globs && !(‹1› == nil) && range ‹2›"),
   ("collectKeys", ""),
   ("return collectKeys(‹0›), nil", "")] := by rfl
 
